@@ -28,6 +28,11 @@ theorem gen_protocols_killOK : ∀ p ∈ Gen.publishProtocols, killOK (traceOf p
     (regenerated fact; the kill engine additionally checks that no `*.tmp` survives `Open`). -/
 theorem gen_open_removes_tmp : Gen.openRemovesTmp = true := by decide
 
+/-- The retry's first step is enabled in every killed state: no publishing function creates its staging
+    file exclusively (`O_EXCL`), so a stale `<name>.tmp` left by a kill is simply truncated by the retry
+    (`create` in the model always succeeds). Regenerated from the open flags in /repo. -/
+theorem gen_no_exclusive_staging : Gen.exclusiveStagingCreates = [] := by decide
+
 /-- **General form.** In any history the kill-only acceptor accepts, at every instant `k`, every final
     name that is visible shows a file whose content is already complete (it is never written again). -/
 theorem kill_no_partial (tr : List Event) (h : killOK tr = true) :
